@@ -93,7 +93,7 @@ Section Scans.
       rewrite buyers_in_cons.
       destruct (t_act x) as [sh aps com rate crate | sh aps com rate crate sp | aps rate | sh aps | post pre io] eqn:Ea;
         cbn [is_buy].
-      + bind_as H as b E1. apply gez_mul_exact in E1 as [-> _].
+      + bind_as H as b E1. apply gez_div_exact in E1 as [-> _]. unfold Qcdiv in H.
         bind_as H as eop E2. bind_as H as na E3. apply gez_add_exact in E3 as [-> _]. bind_as H as acq E4.
         eapply IH in H; [exact H | apply adj_inv_keep; [exact Hadj | rewrite Ea; reflexivity] | | apply members_add; exact Hm | exact HF].
         intros af. rewrite act_update, Hnet. unfold net_shares, buy_shares, sell_shares. rewrite Ea.
@@ -101,7 +101,7 @@ Section Scans.
         destruct (N.eqb_spec (af_id af) (af_id (t_af x))) as [e|n0].
         * fold (act s dflt (t_af x)). rewrite (Hact (t_af x)), (Hadj (t_af x)), e, (start_id _ _ e). ring.
         * rewrite (Hact af). ring.
-      + bind_as H as b E1. apply gez_mul_exact in E1 as [-> _].
+      + bind_as H as b E1. apply gez_div_exact in E1 as [-> _]. unfold Qcdiv in H.
         cbn [a_sub exact bind] in H. if_inv H. if_inv H.
         fold (act s dflt (t_af x)) in H.
         eapply IH in H; [exact H | apply adj_inv_keep; [exact Hadj | rewrite Ea; reflexivity] | | apply members_more; exact Hm | exact HF].
@@ -118,7 +118,7 @@ Section Scans.
         destruct (N.eqb _ _); ring.
       + unfold split_factor in H.
         bind_as H as f E1. apply pos_div_exact in E1 as (-> & _ & _).
-        bind_as H as nsa E2. apply pos_div_exact in E2 as (-> & _ & _).
+        bind_as H as nsa E2. apply pos_mul_exact in E2 as [-> _].
         eapply IH in H; [exact H | | | exact Hm | exact HF].
         * apply adj_inv_step; [exact Hadj | rewrite Ea; reflexivity|]. unfold split_factor_of. rewrite Ea. reflexivity.
         * intros af. rewrite Hnet, (Hact af). unfold net_shares, buy_shares, sell_shares. rewrite Ea.
@@ -488,7 +488,8 @@ Section Ahead2.
     { intros af. rewrite net_after_snoc. reflexivity. }
     destruct (t_act x) as [sh aps com rate crate | sh aps com rate crate sp | aps rate | sh aps | post pre io] eqn:Ea.
     - (* Buy *)
-      brej H as b E1. apply gez_mul_exact in E1 as [-> Hb].
+      brej H as b E1. pose proof (gez_div_nonneg exact _ _ _ E1) as Hb.
+      apply gez_div_exact in E1 as [-> _]. unfold Qcdiv in H, Hb.
       brej H as eop E2. apply gez_add_exact in E2 as [-> _].
       brej H as na E3. apply gez_add_exact in E3 as [-> _]. brej H as acq E4.
       apply Hlift. eapply IH; [apply adj_inv_keep; [exact Hadj | rewrite Ea; reflexivity] | exact Hps' | exact Hpw | exact Hids | | | | exact H].
@@ -499,20 +500,21 @@ Section Ahead2.
         * rewrite (Hact af). ring.
       + cbn [sc_eop].
         rewrite (sum_over_ext _ _ (fun id => if N.eqb id (af_id (t_af x))
-                   then act s dflt (t_af x) + sh * adj_of (t_af x) adj else act s dflt (mkaf id))).
+                   then act s dflt (t_af x) + sh * / adj_of (t_af x) adj else act s dflt (mkaf id))).
         2: { intros id. rewrite act_update. reflexivity. }
         rewrite sum_over_update by assumption. rewrite Hsum.
         rewrite (act_id s (mkaf (af_id (t_af x))) (t_af x)) by reflexivity. ring.
       + intros af. rewrite act_update. destruct (N.eqb _ _); [|apply Hnn].
         fold (act s dflt (t_af x)). pose proof (Hnn (t_af x)). qc_lra.
     - (* Sell *)
-      brej H as b E1. apply gez_mul_exact in E1 as [-> Hb].
+      brej H as b E1. pose proof (gez_div_nonneg exact _ _ _ E1) as Hb.
+      apply gez_div_exact in E1 as [-> _]. unfold Qcdiv in H, Hb.
       cbn [a_sub exact bind] in H. fold (act s dflt (t_af x)) in H.
       assert (Hmem : act s dflt (t_af x) <= sc_eop s).
       { rewrite Hsum. rewrite (act_id s (t_af x) (mkaf (af_id (t_af x)))) by reflexivity.
         apply (sum_over_member ids (af_id (t_af x)) (fun id => act s dflt (mkaf id))); [|exact Hix].
         intros id. apply Hnn. }
-      destruct (Qcltb_spec (act s dflt (t_af x) - sh * adj_of (t_af x) adj) 0) as [Hneg|Hok].
+      destruct (Qcltb_spec (act s dflt (t_af x) - sh * / adj_of (t_af x) adj) 0) as [Hneg|Hok].
       + (* this row oversells (whichever of the two messages is raised) *)
         exists [], x, w, sh, aps, com, rate, crate, sp. split; [reflexivity|]. split; [exact Ea|].
         split; [exact Hwin|].
@@ -527,7 +529,7 @@ Section Ahead2.
           rewrite <- Hsa'. ring. }
         rewrite E in Hneg. apply mul_neg_pos in Hneg; [|apply fadj_pos; exact Hps].
         remember (shares_after (af_id (t_af x)) (start (t_af x)) seen) as sa. clear - Hneg. qc_lra.
-      + destruct (Qcltb_spec (sc_eop s - sh * adj_of (t_af x) adj) 0) as [Hall|Hall].
+      + destruct (Qcltb_spec (sc_eop s - sh * / adj_of (t_af x) adj) 0) as [Hall|Hall].
         { exfalso. apply Hok. qc_lra. }
         apply Hlift. eapply IH; [apply adj_inv_keep; [exact Hadj | rewrite Ea; reflexivity] | exact Hps' | exact Hpw | exact Hids | | | | exact H].
         * intros af. rewrite act_update, Hnet. unfold net_shares, buy_shares, sell_shares. rewrite Ea.
@@ -537,7 +539,7 @@ Section Ahead2.
           -- rewrite (Hact af). ring.
         * cbn [sc_eop].
           rewrite (sum_over_ext _ _ (fun id => if N.eqb id (af_id (t_af x))
-                     then act s dflt (t_af x) - sh * adj_of (t_af x) adj else act s dflt (mkaf id))).
+                     then act s dflt (t_af x) - sh * / adj_of (t_af x) adj else act s dflt (mkaf id))).
           2: { intros id. rewrite act_update. reflexivity. }
           rewrite sum_over_update by assumption. rewrite Hsum.
           rewrite (act_id s (mkaf (af_id (t_af x))) (t_af x)) by reflexivity. ring.
@@ -554,7 +556,7 @@ Section Ahead2.
     - (* Split *)
       unfold split_factor in H.
       brej H as f E1. apply pos_div_exact in E1 as (-> & _ & _).
-      brej H as nsa E2. apply pos_div_exact in E2 as (-> & _ & _).
+      brej H as nsa E2. apply pos_mul_exact in E2 as [-> _].
       apply Hlift. eapply IH; [ | exact Hps' | exact Hpw | exact Hids | | exact Hsum | exact Hnn | exact H].
       + apply adj_inv_step; [exact Hadj | rewrite Ea; reflexivity|]. unfold split_factor_of. rewrite Ea. reflexivity.
       + intros af. rewrite Hnet. unfold act in *. cbn [sc_active]. rewrite (Hact af).
